@@ -114,9 +114,10 @@ def execute(kinds, abort, schedule, fine=False, store=False):
                 return r.status_code, body
             return fn
         rs = "abc"[:len(kinds)]
-        ctl.no_loop = {rid for rid, kind in zip(rs, kinds) if kind.startswith("err/")}
+        ctl.no_loop = {rid for rid, kind in zip(rs, kinds) if kind.startswith("err/") or kind == "save"}
         for rid, kind in zip(rs, kinds):
-            ctl.spawn(rid, mk(rid, kind), gated=(kind == "save"))
+            # GET /save-state: on a server whose store is watched its copy (S) and write (P) are steps; otherwise it runs as one step
+            ctl.spawn(rid, mk(rid, kind), gated=(kind == "save" and not store))
         ctl.run(schedule, fine)
         out = {"resp": {}, "errors": {}}
         for rid, w in ctl.workers.items():
@@ -185,14 +186,15 @@ def judge(kinds, events, out):
             bad.append(("(1) %s stepped while multi-step request %s was in progress" % (e["r"], holder), e)); break
         if e["act"] in ("T", "K") and e["lock"] and k != "step" and holder is None:
             nxt = [x for x in events[events.index(e) + 1:] if x["r"] == e["r"]]
-            if nxt and nxt[0]["act"] in ("R", "U"):       # the lock attempt succeeded
+            # the lock attempt succeeded (a refused /save-state still copies the state for its response, but does not write it)
+            if nxt and (nxt[0]["act"] in ("R", "U") if k != "save" else [x["act"] for x in nxt[:2]] == ["S", "P"]):
                 holder = e["r"]
         if e["act"] == "U" and holder == e["r"]:
             holder = None
     return bad
 
 
-STORED = [(("steps", "step"), {}), (("step", "steps"), {}), (("step", "step"), {}), (("stream", "step"), {}), (("steps", "steps"), {}), (("stream", "step"), {"a": 1})]
+STORED = [(("save", "step"), {}), (("steps", "step"), {}), (("step", "steps"), {}), (("step", "step"), {}), (("stream", "step"), {}), (("steps", "steps"), {}), (("stream", "step"), {"a": 1})]
 
 
 def store_race(R, quick, clause_filter=lambda name: name.startswith("(6)") or name.startswith("request thread")):
@@ -206,7 +208,7 @@ def store_race(R, quick, clause_filter=lambda name: name.startswith("(6)") or na
         mc = tlc.run("StepLock", cons(kinds, abort=abort, store=True), invariants=INV + ["Emit"], spec="Spec", workers=1)
         if mc.violation:
             R.violation("spec:" + mc.violation, {"kinds": kinds, "trace": mc.trace[:2000]})
-        dv = tlc.run("StepLock", cons(kinds, '{"D19c_save_after_unlock","D19d_step_save_after_unlock"}', abort=abort, store=True), invariants=["Emit"], spec="Spec", workers=1)
+        dv = tlc.run("StepLock", cons(kinds, '{"D19c_save_after_unlock","D19d_step_save_after_unlock","D19e_save_state_no_lock"}', abort=abort, store=True), invariants=["Emit"], spec="Spec", workers=1)
         late = sorted({real(o["sched"]) for o in dv.emitted if o["stored"] != o["clock"]})
         ok = sorted({real(o["sched"]) for o in mc.emitted})
         cap = 6 if quick else 40
@@ -244,7 +246,7 @@ def run(tier, replay_file=None):
     # on a server with an external state adapter every stepping request externalises the session: the copy (S) and the write (P)
     # are steps of their own, and the store must hold the current session when the requests have ended
     stored = STORED
-    for kinds, abort, store in [(k, a, False) for k, a in combos + triples] + [(k, a, True) for k, a in stored]:
+    for kinds, abort, store in [(k, a, "save" in k) for k, a in combos + triples] + [(k, a, True) for k, a in stored]:
         # 1. design: all interleavings of the intended protocol satisfy the clauses
         mc = tlc.run("StepLock", cons(kinds, abort=abort, store=store), invariants=INV + ["Emit"], spec="Spec", workers=1)
         if mc.violation:
@@ -256,7 +258,7 @@ def run(tier, replay_file=None):
         late = []
         if store:
             # schedules under which a server that externalises AFTER releasing the lock leaves an older session in the store
-            dv = tlc.run("StepLock", cons(kinds, '{"D19c_save_after_unlock","D19d_step_save_after_unlock"}', abort=abort, store=True), invariants=["Emit"], spec="Spec", workers=1)
+            dv = tlc.run("StepLock", cons(kinds, '{"D19c_save_after_unlock","D19d_step_save_after_unlock","D19e_save_state_no_lock"}', abort=abort, store=True), invariants=["Emit"], spec="Spec", workers=1)
             late = sorted({real(o["sched"]) for o in dv.emitted if o["stored"] != o["clock"]})
             R.cov["schedules_store_race"] = R.cov.get("schedules_store_race", 0) + len(late)
         plans.append((kinds, abort, scheds, store, late))
@@ -264,7 +266,7 @@ def run(tier, replay_file=None):
     for dev, kinds, inv in (('{"D14b_step_nolock"}', ("step", "step"), "Serial"), ('{"D14b_check_then_lock"}', ("steps", "steps"), "Exclusive"),
                             ('{"D14a_stream_no_unlock"}', ("stream", "step"), "Released"),
                             ('{"D14c_close_unlocks"}', ("stream", "steps", "step"), "Exclusive"),
-                            ('{"D19c_save_after_unlock"}', ("steps", "step"), "StoreCurrent")):
+                            ('{"D19c_save_after_unlock"}', ("steps", "step"), "StoreCurrent"), ('{"D19e_save_state_no_lock"}', ("save", "step"), "StoreCurrent")):
         dv = tlc.run("StepLock", cons(kinds, dev, store=inv == "StoreCurrent"), invariants=INV, view="View", spec="Spec")
         if dv.violation is None:
             raise common.Machinery("deviation %s does not violate any clause in the spec" % dev)
